@@ -2,6 +2,7 @@
 import z3
 from e2lib import *
 from models import is_ws, lex_lt
+from mirexec import str_slice
 
 REG = {}
 
@@ -1642,8 +1643,13 @@ class C08Element(ParserHarness):
 MINI_TOKENS = [b'<AR-PACKAGES>', b'</AR-PACKAGES>', b'<AR-PACKAGE>', b'</AR-PACKAGE>', b'<SHORT-NAME>', b'</SHORT-NAME>', b'<CATEGORY>', b'</CATEGORY>',
                None, b'<!--c-->', b'</AUTOSAR>']
 TK_TEXT, TK_COMMENT, TK_END_ROOT = 8, 9, 10
+# tokens of the mixed-content extension (documentation text: AR-PACKAGE > DESC > L-2 (mixed: text, BR, SUP; required attribute L))
+MIXED_EXTRA = [b'<DESC>', b'</DESC>', b'<L-2 L="EN">', b'</L-2>', b'<BR/>', b'<SUP>', b'</SUP>', b'<L-2>']
+ALL_TOKENS = MINI_TOKENS + MIXED_EXTRA
+TK_DESC, TK_DESC_END, TK_L2, TK_L2_END, TK_BR, TK_SUP, TK_SUP_END, TK_L2_NOATTR = 11, 12, 13, 14, 15, 16, 17, 18
 # type ids of the mini schema (it mirrors the real one for these elements, so that counterexamples replay through load_buffer)
 T_ROOT, T_PKGS, T_PKG, T_SN, T_CAT = 1, 2, 3, 4, 5
+T_DESC, T_L2, T_BR, T_SUP = 6, 7, 8, 9
 
 
 def ident_validator(ex, args):
@@ -1662,9 +1668,18 @@ def install_mini_schema(ex, h):
     tab = string_table('elementname.rs')
     idx_of = {t: i for i, t in enumerate(tab)}
     N_PKGS, N_PKG, N_SN, N_CAT, N_ROOT = idx_of[b'AR-PACKAGES'], idx_of[b'AR-PACKAGE'], idx_of[b'SHORT-NAME'], idx_of[b'CATEGORY'], idx_of[b'AUTOSAR']
-    h.ids = dict(pkgs=N_PKGS, pkg=N_PKG, sn=N_SN, cat=N_CAT, root=N_ROOT)
+    N_DESC, N_L2, N_BR, N_SUP = idx_of[b'DESC'], idx_of[b'L-2'], idx_of[b'BR'], idx_of[b'SUP']
+    h.ids = dict(pkgs=N_PKGS, pkg=N_PKG, sn=N_SN, cat=N_CAT, root=N_ROOT, desc=N_DESC, l2=N_L2, br=N_BR, sup=N_SUP)
     subs = {T_ROOT: [(N_PKGS, T_PKGS, 'ZeroOrOne', None)], T_PKGS: [(N_PKG, T_PKG, 'Any', None)],
-            T_PKG: [(N_SN, T_SN, 'One', None), (N_CAT, T_CAT, 'ZeroOrOne', 'cat'), (N_PKGS, T_PKGS, 'ZeroOrOne', None)], T_SN: [], T_CAT: []}
+            T_PKG: [(N_SN, T_SN, 'One', None), (N_CAT, T_CAT, 'ZeroOrOne', 'cat'), (N_PKGS, T_PKGS, 'ZeroOrOne', None), (N_DESC, T_DESC, 'ZeroOrOne', None)], T_SN: [], T_CAT: [],
+            # mixed-content extension: DESC > L-2* (mixed) > BR (empty element), SUP (character element), text
+            T_DESC: [(N_L2, T_L2, 'Any', None)], T_L2: [(N_BR, T_BR, 'One', None), (N_SUP, T_SUP, 'One', None)], T_BR: [], T_SUP: []}
+    CHAR_TYPES = (T_SN, T_CAT, T_SUP)
+    plain_spec = Ref(Cell(spec_string(False, None)))
+    atab = string_table('attributename.rs')
+    A_L = atab.index(b'L')
+    etab = string_table('enumitem.rs')
+    l_spec = Ref(Cell(spec_enum([(mk_int(etab.index(b'EN'), 'u16'), mk_int(0x1fffff, 'u32'))])))
     h.subs = subs
     str_spec = Ref(Cell(spec_pattern(ident_validator, 128)))
 
@@ -1701,14 +1716,15 @@ def install_mini_schema(ex, h):
         return subs[t][i]
     adds = [
         (r'^autosar_data_specification::ElementName::from_bytes$', from_bytes),
+        (r'^autosar_data_specification::ElementName::to_str$', lambda ex_, c, a: str_slice(tab[(ex_.deref(a[0]) if isinstance(a[0], (Ref, ElemRef)) else a[0]).conc()])),
         (r'^autosar_data_specification::ElementType::find_sub_element$', find_sub_element),
         (r'^autosar_data_specification::ElementType::get_sub_element_version_mask$', lambda ex_, c, a: some(I(mask_of(entry(a[0], a[1])), False, 'u32'))),
         (r'^autosar_data_specification::ElementType::get_sub_element_multiplicity$', lambda ex_, c, a: some(Agg('ElementMultiplicity', entry(a[0], a[1])[2], []))),
-        (r'^autosar_data_specification::ElementType::get_sub_element_container_mode$', lambda ex_, c, a: Agg('ContentMode', 'Sequence', [])),
-        (r'^autosar_data_specification::ElementType::find_common_group$', lambda ex_, c, a: Agg('GroupType', None, [])),
-        (r'^(autosar_data_specification::)?GroupType::content_mode$', lambda ex_, c, a: Agg('ContentMode', 'Sequence', [])),
-        (r'^autosar_data_specification::ElementType::content_mode$', lambda ex_, c, a: Agg('ContentMode', 'Characters' if tid(a[0]) in (T_SN, T_CAT) else 'Sequence', [])),
-        (r'^autosar_data_specification::ElementType::chardata_spec$', lambda ex_, c, a: some(str_spec) if tid(a[0]) in (T_SN, T_CAT) else NONE()),
+        (r'^autosar_data_specification::ElementType::get_sub_element_container_mode$', lambda ex_, c, a: Agg('ContentMode', 'Mixed' if tid(a[0]) == T_L2 else 'Sequence', [])),
+        (r'^autosar_data_specification::ElementType::find_common_group$', lambda ex_, c, a: Agg('GroupType', None, [mk_int(tid(a[0]), 'u16')])),
+        (r'^(autosar_data_specification::)?GroupType::content_mode$', lambda ex_, c, a: Agg('ContentMode', 'Mixed' if (ex_.deref(a[0]) if isinstance(a[0], (Ref, ElemRef)) else a[0]).fields[0].conc() == T_L2 else 'Sequence', [])),
+        (r'^autosar_data_specification::ElementType::content_mode$', lambda ex_, c, a: Agg('ContentMode', 'Characters' if tid(a[0]) in CHAR_TYPES else ('Mixed' if tid(a[0]) == T_L2 else 'Sequence'), [])),
+        (r'^autosar_data_specification::ElementType::chardata_spec$', lambda ex_, c, a: some(str_spec) if tid(a[0]) in (T_SN, T_CAT) else (some(plain_spec) if tid(a[0]) in (T_L2, T_SUP) else NONE())),
         (r'^autosar_data_specification::ElementType::is_ref$', lambda ex_, c, a: False),
         (r'^autosar_data_specification::ElementType::is_named_in_version$', lambda ex_, c, a: tid(a[0]) == T_PKG),
         (r'^autosar_data_specification::ElementType::is_named$', lambda ex_, c, a: tid(a[0]) == T_PKG),
@@ -1725,6 +1741,30 @@ def install_mini_schema(ex, h):
         (r"^<Cow<'_, str> as AsRef<str>>::as_ref$", lambda ex_, c, a: Slice(as_bytes_list(ex_, ex_.deref(a[0]).fields[0]), 0, len(as_bytes_list(ex_, ex_.deref(a[0]).fields[0])), True)),
     ]
     install_attr_models(M, [])
+    install_enum_table_models(M)
+
+    # attributes of the mixed-content extension: L-2 has the required enum-typed attribute L; no other element type has attributes
+    def attr_from_bytes(ex_, c, a):
+        bs = [z3.simplify(x) for x in as_bytes_list(ex_, a[0])]
+        if not all(z3.is_bv_value(x) for x in bs):
+            raise Unsupported('symbolic attribute name')
+        key = bytes(x.as_long() for x in bs)
+        if key in atab:
+            return ok(mk_int(atab.index(key), 'u16'))
+        return err(Opaque('ParseAttributeNameError'))
+
+    def find_attribute_spec(ex_, c, a):
+        if tid(a[0]) == T_L2 and a[1].conc() == A_L:
+            return some(Agg('AttributeSpec', None, [l_spec, True, mk_int(0x1fffff, 'u32')]))
+        return NONE()
+
+    def attr_spec_iter(ex_, c, a):
+        from mirexec import Iter
+        items = [Agg('tuple', None, [mk_int(A_L, 'u16'), l_spec, True])] if tid(a[0]) == T_L2 else []
+        return Iter('attrdefs', Slice(items, 0, len(items), False), 0)
+    adds += [(r'^autosar_data_specification::AttributeName::from_bytes$', attr_from_bytes),
+             (r'^autosar_data_specification::ElementType::find_attribute_spec$', find_attribute_spec),
+             (r'^autosar_data_specification::ElementType::attribute_spec_iter$', attr_spec_iter)]
     for variant, text in (('ShortName', b'SHORT-NAME'), ('Autosar', b'AUTOSAR'), ('ArPackage', b'AR-PACKAGE'), ('ArPackages', b'AR-PACKAGES'), ('Category', b'CATEGORY')):
         v = mk_int(idx_of[text], 'u16')
         M.consts[f'autosar_data_specification::ElementName::{variant}'] = v
@@ -1739,6 +1779,8 @@ class ParseElementDoc(E2Harness):
     """body of the root element given as a sequence of tokens (indices into MINI_TOKENS); text tokens are one symbolic byte"""
     tokens = [0, 2, 4, 8, 5, 3, 1, 10]
     sym_texts = 99          # text tokens beyond this many are the concrete letter x
+    first_text_concrete = False   # the first text token (the SHORT-NAME of the package in the seed documents) is the letter x
+    sym_comments = 0        # this many comment tokens (in document order) have a text of three symbolic bytes, the others are <!--c-->
     native = ('data', 'n_parse_element_doc')
     max_visits = 4096
     max_steps = 400000
@@ -1747,10 +1789,22 @@ class ParseElementDoc(E2Harness):
     def build_doc(self, ex):
         doc = []
         self.text = []
+        self.comments = []
         for t in self.tokens:
-            tok = MINI_TOKENS[t]
-            if tok is None:
-                if len(self.text) < self.sym_texts:
+            tok = ALL_TOKENS[t]
+            if t == TK_COMMENT:
+                if len(self.comments) < self.sym_comments:
+                    cb = [z3.BitVec(f'comment{len(self.comments)}_{j}', 8) for j in range(3)]
+                    for b in cb:
+                        ex.assume(z3.And(b != 0x3e, z3.ULT(b, 0x80)))     # ASCII, no `>`: the comment ends at the token's own `-->`
+                else:
+                    cb = [bv(0x63, 8)]
+                self.comments.append(cb)
+                doc.extend([bv(c, 8) for c in b'<!--'] + cb + [bv(c, 8) for c in b'-->'])
+            elif tok is None:
+                if self.first_text_concrete and not self.text:
+                    b = bv(0x78, 8)
+                elif len(self.text) < self.sym_texts:
                     b = z3.BitVec(f'text{len(self.text)}', 8)
                     ex.assume(z3.And(b != 0x3c, z3.ULT(b, 0x80)))
                 else:
@@ -1788,16 +1842,45 @@ class ParseElementDoc(E2Harness):
                 if r2.variant == 'Err':
                     r = r2
             outs.append((r, p))
+            if self.aspect == 'c01rt':
+                if r.variant != 'Ok' or len(warnings_of(p)) > 0:
+                    return outs + [None]
+                # load -> serialize -> load -> serialize on the real serializer and the real loader
+                f_ser = find_fn(ex.prog, '::serialize_internal', 'element.rs:7:1')
+                f_next = [n_ for n_ in ex.prog.raw if n_.endswith('::next') and 'lexer.rs' in n_ and 'closure' not in n_][0]
+                none_file = Ref(Cell(NONE()))
+                t1 = Str()
+                ex.call(f_ser, [Ref(Cell(r.fields[0])), Ref(Cell(t1)), usize(0), False, none_file])
+                p2 = mk_parser(True, usize(1))
+                p2.fields[P_FILEVERSION] = I(self.fv, False, 'u32')
+                lx2 = Cell(ex.call(f_new, [Slice(list(t1.b), 0, len(t1.b), False), Opaque('PathBuf')]))
+                first = ex.call(f_next, [Ref(lx2)])
+                if first.variant != 'Ok' or first.fields[0].fields[1].variant != 'BeginElement':
+                    return outs + [('reload-rejected', t1, first)]
+                root2 = Agg('ElementRaw', None, [Agg('ElementOrModel', 'None', []), mk_int(self.ids['root'], 'u16'),
+                                                 Agg('ElementType', None, [mk_int(0, 'u16'), mk_int(T_ROOT, 'u16')]),
+                                                 VecV([], ty='SmallVec'), VecV([], ty='SmallVec'), Opaque('HashSet'), NONE()])
+                p2c = Cell(p2)
+                r3 = ex.call(f_pe, [Ref(p2c), root2, Agg('Cow', 'Borrowed', [Slice([], 0, 0, True)]), Ref(lx2)])
+                if r3.variant != 'Ok':
+                    return outs + [('reload-rejected', t1, r3)]
+                t2 = Str()
+                ex.call(f_ser, [Ref(Cell(r3.fields[0])), Ref(Cell(t2)), usize(0), False, none_file])
+                return outs + [('ok', r.fields[0], t1, r3.fields[0], t2)]
         return outs
 
     def replay_vals(self, m):
-        return ([le_bytes(len(self.tokens), 8)] + [[t] for t in self.tokens] + [[x] for x in model_bytes(m, self.text)] +
+        cm = []
+        for cb in self.comments:
+            cm += [[len(cb)]] + [[x] for x in model_bytes(m, cb)]
+        return ([le_bytes(len(self.tokens), 8)] + [[t] for t in self.tokens] + [[x] for x in model_bytes(m, self.text)] + cm +
                 [le_bytes(m.eval(self.fv, model_completion=True).as_long(), 4), le_bytes(m.eval(self.cat_mask, model_completion=True).as_long(), 4),
-                 [{'c01': 1, 'c02': 2, 'c08': 8}[self.aspect]]])
+                 [{'c01': 1, 'c02': 2, 'c08': 8, 'c01rt': 9, 'c08rel': 18}[self.aspect]]])
 
     def describe(self, m):
         it = iter(model_bytes(m, self.text))
-        s = b''.join((MINI_TOKENS[t] if MINI_TOKENS[t] is not None else bytes([next(it)])) for t in self.tokens)
+        ci = iter(self.comments)
+        s = b''.join((b'<!--' + bytes(model_bytes(m, next(ci))) + b'-->' if t == TK_COMMENT else ALL_TOKENS[t] if ALL_TOKENS[t] is not None else bytes([next(it)])) for t in self.tokens)
         return f"{s!r} fileversion={m.eval(self.fv, model_completion=True)} category_mask={m.eval(self.cat_mask, model_completion=True)}"
 
     # ---- independent reading of the token sequence against the mini schema ----
@@ -1805,6 +1888,7 @@ class ParseElementDoc(E2Harness):
         """returns (wellformed: python bool or z3 Bool, tree) ; forks on the symbolic text bytes / masks where needed"""
         toks = list(self.tokens)
         ti = iter(self.text)
+        ci = iter(self.comments)
         pos = 0
         names = {0: 'pkgs', 2: 'pkg', 4: 'sn', 6: 'cat'}
         ends = {1: 'pkgs', 3: 'pkg', 5: 'sn', 7: 'cat', 10: 'root'}
@@ -1818,7 +1902,7 @@ class ParseElementDoc(E2Harness):
             seen = set()
             text = []
             content = []
-            pending_comment = False
+            pending_comment = None
             while True:
                 if pos >= len(toks):
                     return None                      # unexpected end of input
@@ -1835,7 +1919,7 @@ class ParseElementDoc(E2Harness):
                     if k == 'cat':
                         conds.append((self.cat_mask & self.fv) != 0)
                     had_comment = pending_comment
-                    pending_comment = False
+                    pending_comment = None
                     sub = parse(k)
                     if sub is None:
                         return None
@@ -1868,7 +1952,7 @@ class ParseElementDoc(E2Harness):
                     text.append(val)
                     content.append(('text', val))
                 elif t == TK_COMMENT:
-                    pending_comment = True
+                    pending_comment = next(ci)
                     continue
         tree = parse('root')
         if tree is None:
@@ -1910,10 +1994,13 @@ class ParseElementDoc(E2Harness):
                     return False
                 sub_raw = it.fields[0].fields[0].fields[0].cell.v.fields[0]
                 has_comment = sub_raw.fields[6].variant == 'Some'
-                if has_comment != rc[2]['comment']:
+                if has_comment != (rc[2]['comment'] is not None):
                     return False
-                if has_comment and bytes(z3.simplify(x).as_long() for x in sub_raw.fields[6].fields[0].b) != b'c':
-                    return False
+                if has_comment:
+                    got = list(sub_raw.fields[6].fields[0].b)
+                    if len(got) != len(rc[2]['comment']):
+                        return False
+                    conds.append(bytes_eq(got, rc[2]['comment']))
                 r = self.same_tree(ex, it.fields[0], rc[2], rc[1])
                 if r is False:
                     return False
@@ -1921,13 +2008,70 @@ class ParseElementDoc(E2Harness):
                     conds.append(r)
         return zand(*conds) if conds else True
 
+    def tree_equal(self, e1, e2):
+        """structural equality of two loaded trees (names, comments, content items in order)"""
+        r1 = e1.fields[0].fields[0].cell.v.fields[0]
+        r2 = e2.fields[0].fields[0].cell.v.fields[0]
+        if r1.fields[1].conc() != r2.fields[1].conc():
+            return False
+        c1, c2 = r1.fields[6], r2.fields[6]
+        if c1.variant != c2.variant:
+            return False
+        conds = []
+        if c1.variant == 'Some':
+            conds.append(bytes_eq(list(c1.fields[0].b), list(c2.fields[0].b)))
+        a1, a2 = r1.fields[4].items, r2.fields[4].items
+        if len(a1) != len(a2):
+            return False
+        for x, y in zip(a1, a2):
+            if x.fields[0].conc() != y.fields[0].conc():
+                return False
+            conds.append(cdata_equal(x.fields[1], y.fields[1]))
+        i1, i2 = r1.fields[3].items, r2.fields[3].items
+        if len(i1) != len(i2):
+            return False
+        for a, b in zip(i1, i2):
+            if a.variant != b.variant:
+                return False
+            if a.variant == 'CharacterData':
+                conds.append(cdata_equal(a.fields[0], b.fields[0]))
+            else:
+                conds.append(self.tree_equal(a.fields[0], b.fields[0]))
+        if any(c is False for c in conds):
+            return False
+        conds = [c for c in conds if c is not True]
+        return zand(*conds) if conds else True
+
+    def has_split_text(self, e):
+        """recorded finding: a character element holds more than one text item (a comment split its text)"""
+        raw = e.fields[0].fields[0].cell.v.fields[0]
+        items = raw.fields[3].items
+        # only character-data elements: several text items are what a mixed-content element (L-2) legitimately holds
+        if raw.fields[2].fields[1].conc() in (T_SN, T_CAT, T_SUP) and sum(1 for it in items if it.variant == 'CharacterData') > 1:
+            return True
+        return any(self.has_split_text(it.fields[0]) for it in items if it.variant == 'Element')
+
     def prop(self, out, ex):
         if out[0] == 'panic':
             self.cover('panic')
             if self.aspect == 'c02':
                 self.require(ex, False, 'panic while parsing: ' + out[1])
             return
-        (rs, ps), (rl, pl) = out[1]
+        if self.aspect == 'c01rt':
+            rt = out[1][-1]
+            if rt is None:
+                self.cover('not loaded cleanly')
+                return
+            self.cover('round trip')
+            key = 'C01-comment-inside-character-data' if rt[0] == 'ok' and self.has_split_text(rt[1]) else None
+            if rt[0] == 'reload-rejected':
+                self.require(ex, False, 'the text written for a loaded document is rejected when loaded again')
+                return
+            _, tree1, t1, tree2, t2 = rt
+            self.require(ex, self.tree_equal(tree1, tree2), 'load -> serialize -> load changes the model', known_key=key)
+            self.require(ex, bytes_eq(list(t1.b), list(t2.b)), 'second serialization differs from the first', known_key=key)
+            return
+        (rs, ps), (rl, pl) = out[1][0], out[1][1]
         wl = warnings_of(pl)
         self.cover('strict accepts' if rs.variant == 'Ok' else 'strict rejects')
         if self.aspect == 'c01':
@@ -1959,6 +2103,8 @@ class ParseElementDoc(E2Harness):
                     self.require(ex, z3.And(z3.UGE(ln.e, 1), z3.ULE(ln.e, total)), 'error names a line outside the document')
         if rs.variant == 'Ok':
             self.require(ex, rl.variant == 'Ok' and len(wl) == 0, 'strict accepts a document that lenient rejects or warns about')
+            if self.aspect == 'c08rel':
+                return           # documents beyond the reference reader (mixed content): the strict/lenient relation only
             okref, tree = self.reference(ex)
             self.require(ex, okref, 'strict loading accepts a document that violates the schema (unknown / repeated / version-foreign sub-element, missing SHORT-NAME, character content, nesting, trailing data)')
         else:
@@ -1985,6 +2131,7 @@ VALID_DOCS = [
     [0, 2, 4, 8, 5, 6, 8, 7, 6, 8, 7, 3, 1, 10],  # CATEGORY twice
     [0, 1, 0, 1, 10],                             # AR-PACKAGES twice
     [0, 2, 6, 8, 7, 3, 1, 10],                    # SHORT-NAME missing
+    [0, 2, 4, 8, 9, 8, 5, 3, 1, 10],              # a comment inside the text of a character element
 ]
 
 
@@ -1995,8 +2142,38 @@ class ParseElementDocs(ParseElementDoc):
     part = None
     base = None          # index into VALID_DOCS: instead of all sequences of one length, all single-token edits of that valid document
 
+    children = None      # k: instead, all sequences of exactly k children of one AR-PACKAGE, each child one of CHILD_UNITS
+    CHILD_UNITS = [[4, 8, 5], [6, 8, 7], [0, 1], [9], [8], [4, 5]]   # SHORT-NAME, CATEGORY, empty AR-PACKAGES, comment, stray text, SHORT-NAME without text
+
+    mixed = None         # k: DESC > L-2 with ALL sequences of exactly k items, each one of MIXED_UNITS
+    mixed_base = None    # 0: the seed document MIXED_SEED and ALL its single-token edits over the extended token set
+    MIXED_UNITS = [[TK_TEXT], [TK_BR], [TK_SUP, TK_TEXT, TK_SUP_END], [TK_COMMENT]]
+    MIXED_SEED = [0, 2, 4, 8, 5, TK_DESC, TK_L2, 8, TK_BR, 8, TK_L2_END, TK_DESC_END, 3, 1, 10]
+
     def sequences(self):
         import itertools
+        if self.mixed is not None:
+            for combo in itertools.product(self.MIXED_UNITS, repeat=self.mixed):
+                yield tuple([0, 2, 4, 8, 5, TK_DESC, TK_L2] + [t for u in combo for t in u] + [TK_L2_END, TK_DESC_END, 3, 1, 10])
+            return
+        if self.mixed_base is not None:
+            doc = list(self.MIXED_SEED)
+            n = len(ALL_TOKENS)
+            yield tuple(doc)
+            for i in range(len(doc)):
+                yield tuple(doc[:i] + doc[i + 1:])
+                yield tuple(doc[:i] + [doc[i]] + doc[i:])
+                for t in range(n):
+                    if t != doc[i]:
+                        yield tuple(doc[:i] + [t] + doc[i + 1:])
+            for i in range(len(doc) + 1):
+                for t in range(n):
+                    yield tuple(doc[:i] + [t] + doc[i:])
+            return
+        if self.children is not None:
+            for combo in itertools.product(self.CHILD_UNITS, repeat=self.children):
+                yield tuple([0, 2] + [t for u in combo for t in u] + [3, 1, 10])
+            return
         if self.base is None:
             yield from itertools.product(range(len(MINI_TOKENS)), repeat=self.length)
             return
